@@ -151,7 +151,7 @@ func ustr(b []byte) string {
 	return unsafe.String(&b[0], len(b))
 }
 
-func bin64of(n *tree.Node) (a bin.Bin64)   { copy(a[:], n.B); return }
+func bin64of(n *tree.Node) (a bin.Bin64) { copy(a[:], n.B); return }
 func bin128of(n *tree.Node) bin.Bin128 {
 	var a [16]byte
 	copy(a[:], n.B)
